@@ -598,6 +598,10 @@ func (e *specEnv) evalModTargets(ex SExpr) []modTarget {
 				return []modTarget{{prefix: rn, match: func(ref, idx *Term) *Term { return c.Eq(ref, owner.Term) }}}
 			case "nothing":
 				return nil
+			case "fresh":
+				// everything allocated since the function was entered
+				top0 := x.entry.allocTop
+				return []modTarget{{prefix: "", match: func(ref, idx *Term) *Term { return c.Gt(ref, top0) }}}
 			}
 		}
 	case SSel:
